@@ -306,6 +306,17 @@ def c12_extra(prop, tier, rng, result):
         sess.send('storeload 1 conc=2 fsize=%d' % b)
         cov['evaluations'] += 1
         budgets += 1
+    # a snapshot whose last key ranges are empty (their nodes are still physically present, so they get shards of
+    # their own): with a budget between the manifest size and the size of a full shard the LAST files close fine
+    # while earlier ones fail in their final flush
+    for k in range(nbig - nbig // 4, nbig):
+        sess.send('del %d %d' % (k % 2, k * 3 + 1))
+    sess.send('snap')
+    for b in (250, 400, 700, 1200):
+        sess.send('open 2')
+        sess.send('storeload 2 conc=2 fsize=%d' % b)
+        cov['evaluations'] += 1
+        budgets += 1
     recs.append((list(sess.lines), list(sess.outs)))
     sess.close()
     text = 'engine mvcc\n' + ''.join('case %d\n' % i + '\n'.join(c) + '\n' for i, (c, _) in enumerate(recs))
